@@ -893,6 +893,34 @@ func runC04(cfg *vh.Config) error {
 		res.Cases = append(res.Cases, vh.CaseRec{Case: caseNo, Stream: "object", Input: input, Impl: map[string]any{"reflected": protoString(mem.obj), "error": fmt.Sprint(mem.err), "panic": fmt.Sprint(mem.panic)}})
 		res.Sample(map[string]any{"j5s": src, "reflected": protoString(mem.obj)}, 3)
 
+		// ---- the head of the root schema: kind, name, description
+		{
+			kindTerm := map[string]string{"object": "RObject", "oneof": "ROneof"}
+			obsOpt := "None"
+			if mo, ok := proto.GetExtension(md.Options(), ext_j5pb.E_Message).(*ext_j5pb.MessageOptions); ok && mo != nil {
+				switch mo.Type.(type) {
+				case *ext_j5pb.MessageOptions_Object:
+					obsOpt = "(Some RObject)"
+				case *ext_j5pb.MessageOptions_Oneof:
+					obsOpt = "(Some ROneof)"
+				}
+			}
+			reflHead := "None"
+			if mem.obj != nil {
+				rk := "RObject"
+				if mem.isOneof {
+					rk = "ROneof"
+				}
+				reflHead = fmt.Sprintf("(Some (%s, %s, %s))", rk, vh.BytesTerm(mem.obj.Name), vh.BytesTerm(mem.obj.Description))
+			}
+			if mem.obj != nil { // (an object that does not reflect because of a property is reported below)
+				cf.Terms = append(cf.Terms, fmt.Sprintf("C04Root %s %s %s %s %s %s %s", kindTerm[kind], vh.BytesTerm("Foo"), vh.BytesTerm(objDesc),
+					vh.BytesTerm(string(md.Name())), vh.BytesTerm(declaredComment(md)), obsOpt, reflHead))
+				res.Cases = append(res.Cases, vh.CaseRec{Case: caseNo, Stream: "root", Input: input, Impl: map[string]any{"reflected_head": reflHead}})
+				res.Count("root")
+			}
+		}
+
 		// ---- the decoder of the text clause: each compiled field as a descriptor of the file
 		// model (option trees as the printer walks them) vs the annotation record dumped above
 		for i := range props {
